@@ -17,7 +17,7 @@ NA = -999999999
 TBASE = 1577836800
 LAYOUTS = ["contexts", "streams", "bare_streams", "bare_modules"]
 CARRIERS = ["dict", "odict", "yaml_str", "json_str", "yaml_io", "json_io", "yaml_path_str", "yaml_path",
-            "json_path_str", "json_path", "xr_global", "xr_vars", "nc_path"]
+            "json_path_str", "json_path", "xr_global", "xr_vars", "nc_path", "xr_global_dict"]
 # already-parsed objects (Config's docstring: "list of Call objects"; extract_calls: objects with a 'calls' attribute)
 OBJECT_CARRIERS = ["call_list", "ctx_objs", "mixed_list", "config_obj"]
 CARRIERS += OBJECT_CARRIERS
@@ -135,6 +135,7 @@ def make_source(cfg, layout, carrier, wd, n):
     import numpy as np
     import xarray as xr
     textual = carrier not in ("dict", "odict")
+    textual = textual and carrier != "xr_global_dict"
     wform = "str" if (textual and "json" in carrier or carrier in ("xr_global", "nc_path", "xr_vars")) else \
         ("datetime" if textual else ["str", "datetime", "timestamp"][n % 3])
     d = layout_dict(cfg, layout, wform)
@@ -176,6 +177,9 @@ def make_source(cfg, layout, carrier, wd, n):
         with open(p, "w") as f:
             json.dump(d, f)
         return p if carrier == "json_path_str" else Path(p)
+    if carrier == "xr_global_dict":
+        # an in-memory Dataset may hold the parsed mapping itself as its global attribute
+        return xr.Dataset({"a": (("time",), np.arange(3.0))}, attrs={"ioos_qc_config": deep_odict(d) if n % 2 else plain(d)})
     if carrier in ("xr_global", "nc_path"):
         ds = xr.Dataset({"a": (("time",), np.arange(3.0))}, attrs={"ioos_qc_config": json.dumps(d)})
         if carrier == "xr_global":
@@ -243,7 +247,7 @@ def load_event(cfg, layout, carrier, wd, n):
     logging.disable(logging.CRITICAL)
     from ioos_qc.config import Config
     e = {"ev": "load", "cfg": cfg, "layout": layout, "carrier": carrier, "exc": "", "calls": [], "ncalls": 0,
-         "rt": {"exc": "", "calls": []}, "again": {"done": False, "exc": "", "calls": [], "ncalls": 0}}
+         "rt": {"exc": "", "calls": []}, "again": {"done": False, "exc": "", "calls": [], "ncalls": 0}, "ndistinct": 0}
     try:
         src = make_source(cfg, layout, carrier, wd, n)
     except Exception as ex:  # noqa: BLE001
@@ -252,6 +256,12 @@ def load_event(cfg, layout, carrier, wd, n):
         c = Config(src)
         e["calls"] = project_calls(c.calls)
         e["ncalls"] = len(c.calls)
+        # Call identity (__eq__; hashing is not used: a call whose parameters hold a list is not hashable)
+        reps = []
+        for x in c.calls:
+            if not any(x == y for y in reps):
+                reps.append(x)
+        e["ndistinct"] = len(reps)
     except Exception as ex:  # noqa: BLE001
         e["exc"] = type(ex).__name__
         return e
@@ -307,6 +317,13 @@ def rand_cfg(r):
             key = (tuple(win), key[1])
         seen_ctx.append(key)
         cfg.append({"win": win, "region": region, "streams": streams})
+    if len(cfg) < 3 and r.random() < 0.25:
+        # a twin of the first context that differs from it in the region only: its calls are other calls
+        c0 = cfg[0]
+        other = {"none": "geom", "geom": "feat2", "feat": "feat2", "feat2": "none"}[c0["region"]]
+        k0 = (tuple(c0["win"]), "none" if other == "none" else ("AB" if other == "feat2" else "A"))
+        if k0 not in seen_ctx:
+            cfg.append({"win": list(c0["win"]), "region": other, "streams": json.loads(json.dumps(c0["streams"]))})
     return cfg
 
 
